@@ -85,6 +85,27 @@ constexpr parser tokens(
     )
 );
 
+// nesting with empty rules at several stack offsets (values per level: '[' 2, '(' 2, '{' 3), for the structure-aware `nest` target
+constexpr nterm<int> n_value("value"), n_elements("elements"), n_opt("opt"), n_opt2("opt2");
+constexpr char n_num_pattern[] = "[0-9]+";
+constexpr regex_term<n_num_pattern> n_number("number");
+constexpr int NEST_MOD = 1000003;
+constexpr parser nest(
+    n_value,
+    terms(n_number, '[', ']', '(', ')', '{', '}', ',', ';'),
+    nterms(n_value, n_elements, n_opt, n_opt2),
+    rules(
+        n_value(n_number) >= [](std::string_view sv) { return int(sv.size() * 10 + size_t(sv.back() - '0')); },
+        n_value('[', n_elements, ']') >= [](skip, int e, skip) { return (e + 1) % NEST_MOD; },
+        n_value('(', n_opt, n_value, ')') >= [](skip, int o, int v, skip) { return int((2LL * v + o) % NEST_MOD); },
+        n_value('{', n_opt, n_opt2, n_value, '}') >= [](skip, int o, int o2, int v, skip) { return int((3LL * v + o + 2 * o2) % NEST_MOD); },
+        n_elements() >= val(0),
+        n_elements(n_elements, n_value) >= [](int e, int v) { return int((5LL * e + v) % NEST_MOD); },
+        n_opt() >= val(0), n_opt(',') >= val(1),
+        n_opt2() >= val(0), n_opt2(';') >= val(1)
+    )
+);
+
 // standalone matchers
 constexpr char m0[] = "[1-9][0-9]*"; constexpr char m1[] = "(a|b)*"; constexpr char m2[] = "a|bc*"; constexpr char m3[] = "[a-zA-Z_][a-zA-Z_0-9]*";
 constexpr char m4[] = "a{5}"; constexpr char m5[] = "[^a-z]"; constexpr char m6[] = "."; constexpr char m7[] = R"(\x00|\xff)"; constexpr char m8[] = "0|[1-9][0-9]*";
@@ -117,7 +138,7 @@ static std::string& target() { static std::string t; return t; }
 
 [[noreturn]] static void violation(const std::string& what, const std::string& input)
 {
-    fprintf(stderr, "\nFUZZ-VIOLATION: %s\ninput_hex=%s\n", what.c_str(), vj::hex(input).c_str());
+    fprintf(stderr, "\nFUZZ-VIOLATION: %s\ninput_bytes=%zu input_hex=%s%s\n", what.c_str(), input.size(), vj::hex(input.substr(0, 600)).c_str(), input.size() > 600 ? "..." : "");
     fstats().flush();
     __builtin_trap();
 }
@@ -135,7 +156,7 @@ static Out run_one(const Parser& p, const Buffer& b, parse_options opts)
 }
 
 template<class Parser>
-static void differential(const Parser& p, const std::string& in, unsigned optbits)
+static Out differential(const Parser& p, const std::string& in, unsigned optbits)
 {
     parse_options opts; opts.set_skip_whitespace(!(optbits & 1)).set_skip_newline(!(optbits & 2)).set_verbose((optbits & 4) != 0);
     std::unique_ptr<char[]> exact(new char[in.size() ? in.size() : 1]); std::memcpy(exact.get(), in.data(), in.size());
@@ -169,6 +190,37 @@ static void differential(const Parser& p, const std::string& in, unsigned optbit
         }
     }
     else if (nonspace == 0) st.labels["whitespace-only-or-empty"]++;
+    return a;
+}
+
+// independent evaluator for the `nest` language (explicit stack, no LR machinery)
+struct NestRef { bool ok = false; long value = 0; size_t max_depth = 0; };
+static NestRef nest_ref(const std::string& in, bool skip_ws, bool skip_nl)
+{
+    NestRef R; const long MOD = P::NEST_MOD;
+    struct Fr { char kind; long acc; int o1, o2; int stage; };   // stage: 0 after open, 1 after opt, 2 after opt2, 3 have value
+    std::vector<Fr> st; bool done = false; long result = 0;
+    auto can_value = [&] { if (st.empty()) return !done; const Fr& f = st.back(); return f.kind == '[' || f.stage < 3; };
+    auto push_value = [&](long v) { if (st.empty()) { done = true; result = v; return; } Fr& f = st.back(); if (f.kind == '[') f.acc = (5 * f.acc + v) % MOD; else { f.acc = v; f.stage = 3; } };
+    for (size_t i = 0; i < in.size();)
+    {
+        unsigned char c = (unsigned char)in[i];
+        if (skip_ws && (c == 9 || c == 11 || c == 12 || c == 13 || c == 32 || (c == 10 && skip_nl))) { ++i; continue; }
+        if (c >= '0' && c <= '9') { size_t j = i; while (j < in.size() && in[j] >= '0' && in[j] <= '9') ++j; if (!can_value()) return R; push_value(long(j - i) * 10 + (in[j - 1] - '0')); i = j; continue; }
+        ++i;
+        switch (c)
+        {
+        case '[': case '(': case '{': if (!can_value()) return R; st.push_back(Fr{char(c), 0, 0, 0, 0}); R.max_depth = std::max(R.max_depth, st.size()); break;
+        case ',': if (st.empty() || st.back().kind == '[' || st.back().stage != 0) return R; st.back().o1 = 1; st.back().stage = 1; break;
+        case ';': if (st.empty() || st.back().kind != '{' || st.back().stage > 1) return R; st.back().o2 = 1; st.back().stage = 2; break;
+        case ']': { if (st.empty() || st.back().kind != '[') return R; long v = (st.back().acc + 1) % MOD; st.pop_back(); push_value(v); break; }
+        case ')': { if (st.empty() || st.back().kind != '(' || st.back().stage != 3) return R; long v = (2 * st.back().acc + st.back().o1) % MOD; st.pop_back(); push_value(v); break; }
+        case '}': { if (st.empty() || st.back().kind != '{' || st.back().stage != 3) return R; long v = (3 * st.back().acc + st.back().o1 + 2 * st.back().o2) % MOD; st.pop_back(); push_value(v); break; }
+        default: return R;
+        }
+    }
+    if (done && st.empty()) { R.ok = true; R.value = result; }
+    return R;
 }
 
 // reference automata for the compiled patterns of the `match` target (built once at start-up); a pattern whose pinned construction is
@@ -239,6 +291,32 @@ extern "C" int LLVMFuzzerTestOneInput(const uint8_t* data, size_t size)
     if (t == "json") differential(P::json, in, sel & 7);
     else if (t == "expr") differential(P::expression, in, sel & 7);
     else if (t == "tokens") differential(P::tokens, in, sel & 7);
+    else if (t == "nest")
+    {
+        // structure-aware decode: text = P A^K M B^K S  (K up to 2999; pieces of up to 7 bytes cut from the body), so that short inputs reach
+        // stack depths beyond the std::vector reservations (1024, 2048, 4096 entries) with every alignment of the empty reductions
+        std::string text;
+        if (size >= 5)
+        {
+            size_t K = (size_t(data[1]) | size_t(data[2]) << 8) % 3000; if (sel & 8) K *= 4;
+            size_t lp = data[3] & 7, la = (data[3] >> 3) & 7, lm = data[4] & 7, lb = (data[4] >> 3) & 7;
+            std::string body(reinterpret_cast<const char*>(data + 5), size - 5);
+            auto cut = [&](size_t n) { std::string r = body.substr(0, std::min(n, body.size())); body.erase(0, r.size()); return r; };
+            std::string Pp = cut(lp), A = cut(la), M = cut(lm), B = cut(lb), S = body;
+            const size_t cap = (sel & 8) ? 72000 : 16000;   // with bit 3 the text passes the 64 KiB mark (16-bit offsets)
+            if ((A.size() + B.size()) * K > cap) K = cap / (A.size() + B.size());
+            text = Pp; for (size_t i = 0; i < K; ++i) text += A; text += M; for (size_t i = 0; i < K; ++i) text += B; text += S;
+        }
+        else text = in;
+        Out a = differential(P::nest, text, sel & 7);
+        NestRef r = nest_ref(text, !(sel & 1), !(sel & 2));
+        if (a.has != r.ok) violation(std::string("nest parser ") + (a.has ? "accepts an input outside" : "rejects an input of") + " its language", text);
+        if (a.has && a.value != r.value) violation("nest parser returns a value that differs from the independent evaluation", text);
+        FStats& st = fstats();
+        if (r.max_depth >= 1024) st.labels["nesting-depth>=1024"]++; else if (r.max_depth >= 341) st.labels["nesting-depth>=341"]++;
+        if (a.has && r.max_depth >= 341) st.labels["accepted-deep"]++;
+        if (text.size() > 65536) st.labels[a.has ? "accepted-longer-than-64KiB" : "longer-than-64KiB"]++;
+    }
     else if (t == "match")
     {
         switch (sel % 14)
